@@ -11,8 +11,12 @@
 (*        cycle * 2n  +  bit n  +  value (0 .. n-1, n-1 = nil)             *)
 (*   and -1 (all ones) initially.  x | (2n-1), x & ~n, x ^ n, fetch_or of  *)
 (*   n-1 are written with \div and % (floor semantics = two's complement). *)
-(* Reclamation of queue nodes is not modelled (nodes are never reused; the *)
-(* containers over reclaimers are the subject of MSQueue / C01).           *)
+(* Queue nodes are reclaimed by the adversarial abstract reclaimer (see     *)
+(* MSQueue): a guard is effective only if the node was not yet retired     *)
+(* when it was acquired; a retired node without effective guard may be     *)
+(* destroyed at any step (node ids are not reused).  HelpTail = FALSE is   *)
+(* the code before the fix of C04-lagging-tail: do_pop retired the head    *)
+(* node while _tail could still point to it.                               *)
 (*                                                                         *)
 (* The value recorded for an access (variable `last`) is what the runtime  *)
 (* records for the real access: the value read, the value stored, and for  *)
@@ -28,7 +32,8 @@ CONSTANTS NT, Cap, PopRetries, MaxNodes,
 
           Bounded,       \* TRUE: xenium::nikolaev_bounded_queue - one pair of rings, try_push fails when no free entry is left
           KeepFin,       \* TRUE: catchup preserves the finalized flag of _tail (code)
-          SecondLook     \* TRUE: do_pop raises the threshold and dequeues once more before it moves _head on (code)
+          SecondLook,    \* TRUE: do_pop raises the threshold and dequeues once more before it moves _head on (code)
+          HelpTail       \* TRUE: do_pop swings a _tail that still points to the node it is about to unlink and retire (code)
 
 Threads == 0 .. NT - 1
 N == 2 * Cap
@@ -53,12 +58,12 @@ RingFirstEmpty == [head |-> 2, thr |-> ThrFull, tail |-> Cap * 2, ent |-> [i \in
 \* nikolaev_queue::node(): allocated queue empty - written as "full" ring of nils? no: the default node uses empty/full tags
 RingEmpty == [head |-> 0, thr |-> -1, tail |-> 0, ent |-> [i \in 0 .. N - 1 |-> -1]]
 
-VARIABLES pc, loc, lin, budget, nextv, ring, stor, nxt, qhead, qtail, used, bad, last
-vars == <<pc, loc, lin, budget, nextv, ring, stor, nxt, qhead, qtail, used, bad, last>>
-mcview == <<pc, loc, lin, budget, nextv, ring, stor, nxt, qhead, qtail, used, bad>>
+VARIABLES pc, loc, lin, budget, nextv, ring, stor, nxt, qhead, qtail, used, nst, bad, last
+vars == <<pc, loc, lin, budget, nextv, ring, stor, nxt, qhead, qtail, used, nst, bad, last>>
+mcview == <<pc, loc, lin, budget, nextv, ring, stor, nxt, qhead, qtail, used, nst, bad>>
 
 L0 == [n |-> 0, v |-> 0, r |-> "aq", cont |-> "idle", finz |-> FALSE, x |-> 0, i |-> 0, E |-> 0, Enew |-> 0, att |-> 0, ok |-> FALSE, val |-> 0,
-       ev |-> 0, m |-> 0, t |-> 0, h |-> 0, idx |-> 0]
+       ev |-> 0, m |-> 0, t |-> 0, h |-> 0, idx |-> 0, g |-> 0, geff |-> FALSE]
 Init == /\ pc = [t \in Threads |-> "idle"]
         /\ loc = [t \in Threads |-> L0]
         /\ lin = [mon |-> MonInit(IF Bounded THEN QCfg(QInit, "kind_nikbounded", Cap, 0) ELSE QInit), taken |-> {}, bad |-> "ok"]
@@ -70,6 +75,7 @@ Init == /\ pc = [t \in Threads |-> "idle"]
         /\ nxt = [k \in Nodes |-> 0]
         /\ qhead = 1 /\ qtail = 1
         /\ used = 1
+        /\ nst = [k \in Nodes |-> "live"]             \* node k: live | retired | dead (abstract reclaimer, see MSQueue)
         /\ bad = "ok"
         /\ last = [t |-> -1, k |-> "init", lab |-> "init", v |-> 0, ok |-> 1, n |-> 0]
 
@@ -78,7 +84,7 @@ Acc(t, k, lab, v, ok) == last' = [t |-> t, k |-> k, lab |-> lab, v |-> v, ok |->
 R(t) == ring[loc[t].n][loc[t].r]
 SetR(t, f, v) == ring' = [ring EXCEPT ![loc[t].n][loc[t].r][f] = v]
 SetEnt(t, j, v) == ring' = [ring EXCEPT ![loc[t].n][loc[t].r].ent[j] = v]
-UQ == UNCHANGED <<lin, budget, nextv, stor, nxt, qhead, qtail, used, bad>>
+UQ == UNCHANGED <<lin, budget, nextv, stor, nxt, qhead, qtail, used, nst, bad>>
 
 IsPop(t) == loc[t].cont = "q_done"
 Return(t, r, v, popping) ==
@@ -98,7 +104,7 @@ e_faa(t) == /\ pc[t] = "e_faa"
                     THEN /\ loc' = [loc EXCEPT ![t].ok = FALSE] /\ Goto(t, loc[t].cont)
                          /\ bad' = IF ~loc[t].finz /\ bad = "ok" THEN "enqueue on a finalized ring that must not be finalized" ELSE bad
                     ELSE /\ loc' = [loc EXCEPT ![t].x = T] /\ Goto(t, "e_ld") /\ UNCHANGED bad
-            /\ UNCHANGED <<lin, budget, nextv, stor, nxt, qhead, qtail, used>>
+            /\ UNCHANGED <<lin, budget, nextv, stor, nxt, qhead, qtail, used, nst>>
 e_ld(t) == /\ pc[t] = "e_ld"
            /\ loc' = [loc EXCEPT ![t].E = R(t).ent[Slot(loc[t].x)]] /\ Acc(t, "ld", "e_ld", R(t).ent[Slot(loc[t].x)], 1)
            /\ Goto(t, "e_chk") /\ UNCHANGED ring /\ UQ
@@ -162,7 +168,7 @@ d_for(t) == /\ pc[t] = "d_for"
             /\ loc' = [loc EXCEPT ![t].ok = TRUE, ![t].val = ValOf(loc[t].E)]
             /\ bad' = IF bad = "ok" /\ ValOf(loc[t].E) >= Cap THEN "dequeued index out of range" ELSE bad
             /\ Goto(t, loc[t].cont)
-            /\ UNCHANGED <<lin, budget, nextv, stor, nxt, qhead, qtail, used>>
+            /\ UNCHANGED <<lin, budget, nextv, stor, nxt, qhead, qtail, used, nst>>
 d_cas(t) == /\ pc[t] = "d_cas"
             /\ LET j == Slot(loc[t].x) cur == R(t).ent[j] IN
                IF cur = loc[t].E
@@ -206,9 +212,9 @@ StartPush(t) == /\ MayStart(t, "push")
                 /\ nextv' = nextv + 1
                 /\ lin' = [lin EXCEPT !.mon = MonCall(@, t, "push", nextv, 0)]
                 /\ Goto(t, IF Bounded THEN "d_thr" ELSE "p_tail") /\ Acc(t, "call", "push", nextv, 1)
-                /\ UNCHANGED <<ring, stor, nxt, qhead, qtail, used, bad>>
+                /\ UNCHANGED <<ring, stor, nxt, qhead, qtail, used, nst, bad>>
 p_tail(t) == /\ pc[t] = "p_tail"
-             /\ loc' = [loc EXCEPT ![t].m = qtail] /\ Acc(t, "ld", "p_tail", qtail, 1)
+             /\ loc' = [loc EXCEPT ![t].m = qtail, ![t].g = qtail, ![t].geff = nst[qtail] = "live"] /\ Acc(t, "ld", "p_tail", qtail, 1)
              /\ Goto(t, "p_next") /\ UNCHANGED ring /\ UQ
 p_next(t) == /\ pc[t] = "p_next"
              /\ Acc(t, "ld", "p_next", nxt[loc[t].m], 1)
@@ -223,7 +229,7 @@ p_help(t) == /\ pc[t] = "p_help"
              /\ qtail' = IF qtail = loc[t].m THEN nxt[loc[t].m] ELSE qtail
              /\ Acc(t, "cas", "p_help", 0, IF qtail = loc[t].m THEN 1 ELSE 0)
              /\ Goto(t, "p_tail")
-             /\ UNCHANGED <<loc, lin, budget, nextv, ring, stor, nxt, qhead, used, bad>>
+             /\ UNCHANGED <<loc, lin, budget, nextv, ring, stor, nxt, qhead, used, nst, bad>>
 tp_deq(t) == /\ pc[t] = "tp_deq"
              /\ IF ~loc[t].ok
                   THEN \* no free entry: _allocated_queue.finalize()
@@ -233,13 +239,13 @@ tp_deq(t) == /\ pc[t] = "tp_deq"
                        /\ stor' = [stor EXCEPT ![loc[t].m][loc[t].val] = loc[t].v]
                        /\ loc' = [loc EXCEPT ![t] = CallEnq([@ EXCEPT !.idx = loc[t].val], loc[t].m, "aq", loc[t].val, TRUE, "tp_enq")]
                        /\ Goto(t, "e_faa") /\ UNCHANGED <<ring, last>>
-             /\ UNCHANGED <<lin, budget, nextv, nxt, qhead, qtail, used, bad>>
+             /\ UNCHANGED <<lin, budget, nextv, nxt, qhead, qtail, used, nst, bad>>
 tp_enq(t) == /\ pc[t] = "tp_enq"
              /\ IF loc[t].ok THEN Return(t, 1, loc[t].v, FALSE) /\ UNCHANGED loc
                 ELSE \* the ring was finalized meanwhile: take the value back, return the slot to the free queue
                      /\ loc' = [loc EXCEPT ![t] = CallEnq(@, loc[t].m, "fq", loc[t].idx, FALSE, "p_new")]
                      /\ Goto(t, "e_faa") /\ UNCHANGED lin
-             /\ UNCHANGED <<budget, nextv, ring, stor, nxt, qhead, qtail, used, bad, last>>
+             /\ UNCHANGED <<budget, nextv, ring, stor, nxt, qhead, qtail, used, nst, bad, last>>
 \* new node(std::move(value)): allocated queue holds entry 0 (first_used), free queue lacks it (first_empty)
 p_new(t) == /\ pc[t] = "p_new" /\ used < MaxNodes
             /\ LET k == used + 1 IN
@@ -248,7 +254,7 @@ p_new(t) == /\ pc[t] = "p_new" /\ used < MaxNodes
                /\ stor' = [stor EXCEPT ![k][0] = loc[t].v]
                /\ loc' = [loc EXCEPT ![t].h = k]
             /\ Goto(t, "p_link")
-            /\ UNCHANGED <<lin, budget, nextv, nxt, qhead, qtail, bad, last>>
+            /\ UNCHANGED <<lin, budget, nextv, nxt, qhead, qtail, nst, bad, last>>
 p_link(t) == /\ pc[t] = "p_link"
              /\ IF nxt[loc[t].m] = 0
                   THEN /\ nxt' = [nxt EXCEPT ![loc[t].m] = loc[t].h] /\ Acc(t, "cas", "p_link", 0, 1) /\ Goto(t, "p_swing")
@@ -257,12 +263,12 @@ p_link(t) == /\ pc[t] = "p_link"
                        \* ring, an enqueue on its free ring), `delete next` drains the allocated ring once more (~node), then start over
                        /\ Acc(t, "cas", "p_link", nxt[loc[t].m], 0) /\ UNCHANGED nxt
                        /\ loc' = [loc EXCEPT ![t] = CallDeq(@, loc[t].h, "aq", "st_deq")] /\ Goto(t, "d_thr")
-             /\ UNCHANGED <<lin, budget, nextv, ring, stor, qhead, qtail, used, bad>>
+             /\ UNCHANGED <<lin, budget, nextv, ring, stor, qhead, qtail, used, nst, bad>>
 st_deq(t) == /\ pc[t] = "st_deq"
              /\ loc' = [loc EXCEPT ![t] = CallEnq(@, loc[t].h, "fq", loc[t].val, FALSE, "st_dtor")]
              /\ bad' = IF bad = "ok" /\ ~loc[t].ok THEN "steal_init_value found no value" ELSE bad
              /\ Goto(t, "e_faa")
-             /\ UNCHANGED <<lin, budget, nextv, ring, stor, nxt, qhead, qtail, used, last>>
+             /\ UNCHANGED <<lin, budget, nextv, ring, stor, nxt, qhead, qtail, used, nst, last>>
 st_dtor(t) == /\ pc[t] = "st_dtor"          \* ~node: while (_allocated_queue.dequeue(idx)) destroy the element
               /\ loc' = [loc EXCEPT ![t] = CallDeq(@, loc[t].h, "aq", "st_dtor2")] /\ Goto(t, "d_thr")
               /\ UNCHANGED <<ring, last>> /\ UQ
@@ -273,7 +279,7 @@ p_swing(t) == /\ pc[t] = "p_swing"
               /\ qtail' = IF qtail = loc[t].m THEN loc[t].h ELSE qtail
               /\ Acc(t, "cas", "p_swing", 0, IF qtail = loc[t].m THEN 1 ELSE 0)
               /\ Return(t, 1, loc[t].v, FALSE)
-              /\ UNCHANGED <<loc, budget, nextv, ring, stor, nxt, qhead, used, bad>>
+              /\ UNCHANGED <<loc, budget, nextv, ring, stor, nxt, qhead, used, nst, bad>>
 
 \* ---------------------------------------------------------------- nikolaev_queue::do_pop
 StartPop(t) == /\ MayStart(t, "pop")
@@ -281,16 +287,16 @@ StartPop(t) == /\ MayStart(t, "pop")
                /\ loc' = [loc EXCEPT ![t] = IF Bounded THEN CallDeq([L0 EXCEPT !.m = 1], 1, "aq", "b_pdeq") ELSE L0]
                /\ lin' = [lin EXCEPT !.mon = MonCall(@, t, "pop", 0, 0)]
                /\ Goto(t, IF Bounded THEN "d_thr" ELSE "q_head") /\ Acc(t, "call", "pop", 0, 1)
-               /\ UNCHANGED <<nextv, ring, stor, nxt, qhead, qtail, used, bad>>
+               /\ UNCHANGED <<nextv, ring, stor, nxt, qhead, qtail, used, nst, bad>>
 q_head(t) == /\ pc[t] = "q_head"
-             /\ loc' = [loc EXCEPT ![t] = CallDeq([@ EXCEPT !.m = qhead], qhead, "aq", "q_deq1")] /\ Acc(t, "ld", "q_head", qhead, 1)
+             /\ loc' = [loc EXCEPT ![t] = CallDeq([@ EXCEPT !.m = qhead, !.g = qhead, !.geff = nst[qhead] = "live"], qhead, "aq", "q_deq1")] /\ Acc(t, "ld", "q_head", qhead, 1)
              /\ Goto(t, "d_thr") /\ UNCHANGED ring /\ UQ
 q_deq1(t) == /\ pc[t] = "q_deq1"
              /\ IF loc[t].ok THEN Goto(t, "q_take") /\ UNCHANGED <<last, lin>>
                 ELSE /\ Acc(t, "ld", "q_next", nxt[loc[t].m], 1)
                      /\ IF nxt[loc[t].m] = 0 THEN Return(t, 0, 0, TRUE)
                         ELSE Goto(t, IF SecondLook THEN "q_thr" ELSE "q_ldn") /\ UNCHANGED lin
-             /\ UNCHANGED <<loc, budget, nextv, ring, stor, nxt, qhead, qtail, used, bad>>
+             /\ UNCHANGED <<loc, budget, nextv, ring, stor, nxt, qhead, qtail, used, nst, bad>>
 q_thr(t) == /\ pc[t] = "q_thr"
             /\ ring' = [ring EXCEPT ![loc[t].m].aq.thr = ThrFull] /\ Acc(t, "st", "q_thr", ThrFull, 1)
             /\ loc' = [loc EXCEPT ![t] = CallDeq(@, loc[t].m, "aq", "q_deq2")]
@@ -299,19 +305,30 @@ q_deq2(t) == /\ pc[t] = "q_deq2"
              /\ Goto(t, IF loc[t].ok THEN "q_take" ELSE "q_ldn")
              /\ UNCHANGED <<loc, ring, last>> /\ UQ
 q_ldn(t) == /\ pc[t] = "q_ldn"             \* (7) the acquire-load of _next
-            /\ Acc(t, "ld", "q_ldn", nxt[loc[t].m], 1) /\ Goto(t, "q_cas")
+            /\ Acc(t, "ld", "q_ldn", nxt[loc[t].m], 1) /\ Goto(t, IF HelpTail THEN "q_ldt" ELSE "q_cas")
             /\ UNCHANGED <<loc, ring>> /\ UQ
+\* _tail must not lag behind _head: the node is retired only once it is unreachable through _tail as well
+q_ldt(t) == /\ pc[t] = "q_ldt"
+            /\ Acc(t, "ld", "q_ldt", qtail, 1) /\ Goto(t, IF qtail = loc[t].m THEN "q_helpt" ELSE "q_cas")
+            /\ UNCHANGED <<loc, ring>> /\ UQ
+q_helpt(t) == /\ pc[t] = "q_helpt"
+              /\ qtail' = IF qtail = loc[t].m THEN nxt[loc[t].m] ELSE qtail
+              /\ Acc(t, "cas", "q_helpt", 0, IF qtail = loc[t].m THEN 1 ELSE 0)
+              /\ Goto(t, "q_cas")
+              /\ UNCHANGED <<loc, lin, budget, nextv, ring, stor, nxt, qhead, used, nst, bad>>
 q_cas(t) == /\ pc[t] = "q_cas"             \* (8) CAS on _head
             /\ qhead' = IF qhead = loc[t].m THEN nxt[loc[t].m] ELSE qhead
             /\ Acc(t, "cas", "q_cas", 0, IF qhead = loc[t].m THEN 1 ELSE 0)
+            /\ nst' = IF qhead = loc[t].m THEN [nst EXCEPT ![loc[t].m] = "retired"] ELSE nst           \* n.reclaim()
+            /\ loc' = IF qhead = loc[t].m THEN [loc EXCEPT ![t].g = 0, ![t].geff = FALSE] ELSE loc
             /\ Goto(t, "q_head")
-            /\ UNCHANGED <<loc, lin, budget, nextv, ring, stor, nxt, qtail, used, bad>>
+            /\ UNCHANGED <<lin, budget, nextv, ring, stor, nxt, qtail, used, bad>>
 q_take(t) == /\ pc[t] = "q_take"           \* move the element out (plain), give the slot back to the free queue
              /\ loc' = [loc EXCEPT ![t] = CallEnq([@ EXCEPT !.v = stor[loc[t].m][loc[t].val]], loc[t].m, "fq", loc[t].val, FALSE, "q_done")]
              /\ Goto(t, "e_faa") /\ UNCHANGED <<ring, last>> /\ UQ
 q_done(t) == /\ pc[t] = "q_done"
              /\ Return(t, 1, loc[t].v, TRUE)
-             /\ UNCHANGED <<loc, budget, nextv, ring, stor, nxt, qhead, qtail, used, bad, last>>
+             /\ UNCHANGED <<loc, budget, nextv, ring, stor, nxt, qhead, qtail, used, nst, bad, last>>
 
 \* ---------------------------------------------------------------- nikolaev_bounded_queue::try_push / try_pop
 b_deq(t) == /\ pc[t] = "b_deq"
@@ -319,26 +336,35 @@ b_deq(t) == /\ pc[t] = "b_deq"
                ELSE /\ stor' = [stor EXCEPT ![1][loc[t].val] = loc[t].v]
                     /\ loc' = [loc EXCEPT ![t] = CallEnq(@, 1, "aq", loc[t].val, FALSE, "b_enq")]
                     /\ Goto(t, "e_faa") /\ UNCHANGED lin
-            /\ UNCHANGED <<budget, nextv, ring, nxt, qhead, qtail, used, bad, last>>
+            /\ UNCHANGED <<budget, nextv, ring, nxt, qhead, qtail, used, nst, bad, last>>
 b_enq(t) == /\ pc[t] = "b_enq"
             /\ Return(t, 1, loc[t].v, FALSE)
             /\ bad' = IF bad = "ok" /\ ~loc[t].ok THEN "enqueue on the allocated ring failed" ELSE bad
-            /\ UNCHANGED <<loc, budget, nextv, ring, stor, nxt, qhead, qtail, used, last>>
+            /\ UNCHANGED <<loc, budget, nextv, ring, stor, nxt, qhead, qtail, used, nst, last>>
 b_pdeq(t) == /\ pc[t] = "b_pdeq"
              /\ IF loc[t].ok THEN Goto(t, "q_take") /\ UNCHANGED lin ELSE Return(t, 0, 0, TRUE)
-             /\ UNCHANGED <<loc, budget, nextv, ring, stor, nxt, qhead, qtail, used, bad, last>>
+             /\ UNCHANGED <<loc, budget, nextv, ring, stor, nxt, qhead, qtail, used, nst, bad, last>>
 
 ThreadStep(t) == \/ StartPush(t) \/ StartPop(t) \/ b_deq(t) \/ b_enq(t) \/ b_pdeq(t)
                  \/ e_faa(t) \/ e_ld(t) \/ e_chk(t) \/ e_cas(t) \/ e_thr(t) \/ e_sthr(t)
                  \/ d_thr(t) \/ d_faa(t) \/ d_ld(t) \/ d_chk(t) \/ d_for(t) \/ d_cas(t) \/ d_after(t) \/ c_cas(t) \/ c_ldh(t) \/ d_fsube(t) \/ d_fsub(t)
                  \/ p_tail(t) \/ p_next(t) \/ p_ldn(t) \/ p_help(t) \/ tp_deq(t) \/ tp_enq(t) \/ p_new(t) \/ p_link(t) \/ st_deq(t) \/ st_dtor(t) \/ st_dtor2(t) \/ p_swing(t)
-                 \/ q_head(t) \/ q_deq1(t) \/ q_thr(t) \/ q_deq2(t) \/ q_ldn(t) \/ q_cas(t) \/ q_take(t) \/ q_done(t)
-Next == \E t \in Threads : ThreadStep(t)
+                 \/ q_head(t) \/ q_deq1(t) \/ q_thr(t) \/ q_deq2(t) \/ q_ldn(t) \/ q_ldt(t) \/ q_helpt(t) \/ q_cas(t) \/ q_take(t) \/ q_done(t)
+\* the abstract reclaimer destroys a retired node that no effective guard of a running operation refers to
+Guarded(k) == \E t \in Threads : pc[t] # "idle" /\ loc[t].g = k /\ loc[t].geff
+Destroy == /\ \E k \in Nodes : nst[k] = "retired" /\ ~Guarded(k) /\ nst' = [nst EXCEPT ![k] = "dead"]
+           /\ UNCHANGED <<pc, loc, lin, budget, nextv, ring, stor, nxt, qhead, qtail, used, bad, last>>
+Next == Destroy \/ \E t \in Threads : ThreadStep(t)
 Spec == Init /\ [][Next]_vars
 
 \* ---------------------------------------------------------------- properties
 Linearizable == lin.mon # {}
 Conservation == lin.bad = "ok" /\ bad = "ok"
+\* no operation is about to access a node that was destroyed
+SCQpcs == {"e_faa", "e_ld", "e_chk", "e_cas", "e_thr", "e_sthr", "d_thr", "d_faa", "d_ld", "d_chk", "d_for", "d_cas", "d_after", "c_cas", "c_ldh", "d_fsube", "d_fsub"}
+NodeAccessedNext(t) == IF pc[t] \in SCQpcs THEN loc[t].n
+                       ELSE IF pc[t] \in {"p_next", "p_ldn", "p_link", "tp_deq", "q_deq1", "q_thr", "q_ldn", "q_take"} THEN loc[t].m ELSE 0
+MemorySafe == Bounded \/ \A t \in Threads : NodeAccessedNext(t) # 0 => nst[NodeAccessedNext(t)] # "dead"
 \* when every operation is over, the values pushed and not popped are exactly those a drain would find: the allocated entries
 \* of the nodes reachable from _head
 Reach == LET RECURSIVE F(_) F(k) == IF k = 0 THEN {} ELSE {k} \cup F(nxt[k]) IN F(qhead)
@@ -352,5 +378,6 @@ ProgPP == << <<"push", "push">>, <<"pop", "pop">> >>
 ProgFill == << <<"push", "push", "pop">>, <<"push", "pop", "push">> >>      \* more pushes than entries (bounded: capacity 1 or 2)
 ProgMix == << <<"push", "pop", "push">>, <<"push", "pop">> >>
 Prog3 == << <<"push", "push">>, <<"pop", "push">>, <<"pop">> >>
+ProgTail == << <<"push", "push">>, <<"pop", "pop", "push">> >>      \* a push meets a _tail that lags behind _head
 ConservedAtEnd == Done => Stored = (1 .. nextv - 1) \ lin.taken
 =============================================================================
